@@ -518,6 +518,31 @@ Proof.
     apply (IH c y Wc F' H).
 Qed.
 
+(* the same along a whole path of non-hardened indices: the hypothesis is asked at every step, of the node reached *)
+Fixpoint commute_path_ok (nd : node) (path : list Z) : Prop :=
+  match path with
+  | [] => True
+  | i :: r =>
+    0 <= i < 2 ^ 31 /\
+    exists k, nd_secret pt nd = Some k /\ first_IL nd i false < order /\ (first_IL nd i false + k) mod order <> 0 /\
+              forall c, subkey_raw nd i false true = Ret c -> commute_path_ok c r
+  end.
+
+Lemma pub_priv_commute_path : forall (path : list Z) (nd : node) (ap : bool),
+  wf_node nd -> commute_path_ok nd path ->
+  exists c, derive_raw nd (map (fun i => (i, false, true)) path) = Ret c /\
+            derive_raw (neuter_node nd) (map (fun i => (i, false, ap)) path) = Ret (neuter_node c).
+Proof.
+  induction path as [|i path IH]; intros nd ap W H.
+  - exists nd. split; reflexivity.
+  - cbn [commute_path_ok] in H. destruct H as (Hi & k & S & H1 & H2 & Hn).
+    destruct (subkey_raw_prv nd k i false W S Hi H1 H2) as (R1 & _ & Wc).
+    destruct (pub_priv_commute nd k i ap W S Hi H1 H2) as (child & C1 & _ & C3).
+    rewrite R1 in C1. injection C1 as <-.
+    cbn [map]. rewrite !derive_raw_cons, R1, C3.
+    apply IH; [exact Wc|]. apply Hn. exact R1.
+Qed.
+
 (* ---------------------------------------------------------------------------------------------- *)
 (* metadata of every successful derivation (no assumption on the HMAC values) *)
 Lemma subkey_raw_metadata nd i h ap c :
